@@ -22,17 +22,36 @@ CFG = {
         "each of the 16 key algorithms, the four signing ones with and without secret); c13:cross (six key pairs over all four algorithms, a "
         "public-only import and a non-signing key: every (signer, verifier) pair with the default type, the signer's and the verifier's "
         "type; signing with every type). "
-        "Compared with the model: per operation the dispatch outcome (sign: ok+length / error kind; verify: true / false / error kind). "
+        "Plus c13:selftest (the Lean specifications' own tests: RFC 8032 7.1 TEST 1/2/3/1024/SHA(abc), RFC 6979 A.2.5/A.2.6 k, r, s, curve "
+        "constants, decoding rules) and c13:digest (P-256 messages whose SHA-256 digest is >= n, found by search: the one case where RFC 6979's "
+        "bits2octets reduction matters). c13:flip is delivered as two cases per key pair that divide the signature bits between them. "
+        "Compared with the model: per operation the dispatch outcome AND the values: sign -> ok + length + the signature bytes + the public "
+        "key of the signing key, all recomputed in Lean from the secret key bytes by executable specifications of Ed25519 (RFC 8032) and "
+        "ECDSA + RFC 6979 over P-256/P-384/secp256k1; verify -> true / false / error kind where true/false is the specification's verdict "
+        "(strict Ed25519 as ed25519-dalek verify_strict defines it; ECDSA with r, s in [1, n-1], high s rejected on secp256k1 only). "
+        "Secret/public bytes of generated, seeded and JWK-imported keys reach the model through model_input.km (the library's own export); "
+        "keys built from bytes use the bytes of the case. The executor additionally queries the compiled specification itself (child "
+        "process) and reports each differing signature value / public key / verdict as an oracle failure with its input. "
         "non-trivial = the case contains at least one successful signature and at least one rejected verification (false or error), "
         "or it is a type/dispatch case that reaches at least two different error kinds; distinct = hash of the case"
     ),
     "assumptions": [
-        "curve arithmetic (ed25519-dalek, p256, p384, k256, ecdsa, rfc6979, sha2) is NOT modelled: theorems hold for every family of abstract "
-        "schemes with three laws (fixed signature width; a derived public key decodes; verify(pub(sk), m, sign(sk, m)) = true)",
+        "dispatch theorems hold for every family of abstract schemes with three laws (fixed signature width; a derived public key decodes; "
+        "verify(pub(sk), m, sign(sk, m)) = true); the VALUES are fixed by executable Lean specifications written from RFC 8032 / SEC 1 / "
+        "RFC 6979 / FIPS 180-4 / RFC 2104 (Crypto/Ed25519.lean, Ecdsa.lean, Ec.lean, Sha2.lean, Hmac.lean), validated on the RFCs' vectors",
+        "proved about the specifications without group laws: Ed25519 closed form / width / emitted S < L / every S >= L (incl. S + L) rejected "
+        "by strict, non-strict and RFC verifier; ECDSA width, low-S on secp256k1, RFC 6979 nonce in [1, q-1] (retry loop bounded by fuel 100); "
+        "ecdsa_correct for every abstract group satisfying Ecdsa.Laws (satisfiable: Z/7). NOT proved: that Ec.lean's Jacobian arithmetic "
+        "satisfies those laws, Ed25519 correctness, rejection of a canonical S' != S (need elliptic-curve group-law developments)",
+        "the model's signature value follows the pinned ecdsa 0.16.9 crate where it deviates from RFC 6979 (nonce seeded with the digest "
+        "not reduced mod n; differs only when H(m) >= n, P-256: probability 2^-32); the oracle compares with the RFC value and flags it "
+        "(sign:value-differs-from-spec:p256:digest-ge-n)",
         "rejection of altered messages / signatures and of signatures under other keys is unforgeability of the real curves: not provable "
         "from those laws (Props/C13 altered_rejected_not_from_laws), tested exhaustively for single-bit changes by the harness oracle",
-        "the driver runs the model over a toy scheme (FNV-based, Model/Sign.lean Toy) calibrated to two observed facts about the crates: "
-        "p256/p384 verification accepts (r, n-s); k256 and strict Ed25519 verification do not",
+        "the driver runs the dispatch model over a toy scheme (FNV-based, Model/Sign.lean Toy) to decide ok / error kind / wrong-length-false, "
+        "and substitutes the specification's value wherever the dispatch reaches the scheme (licensed by sign_value / verify_is_scheme_verdict)",
+        "Ed25519 public keys are decoded the way curve25519-dalek does (y taken mod p, sign bit of x = 0 ignored), not by RFC 8032 5.1.3, "
+        "because that is what decides importability in the library; non-canonical encodings are in the generated keys",
         "UTF-8 is core Lean's String.utf8EncodeChar; a Rust &str is modelled as a list of Unicode scalar values",
         "Key.WF (the stored public bytes decode and belong to the secret) is established by every LocalKey constructor; import-side "
         "validation itself is C14's subject",
@@ -40,7 +59,11 @@ CFG = {
     "trusted_base": [
         "harness/src/c13.rs: the embedded RFC 8032 / RFC 6979 vectors, group orders, big-endian arithmetic for n-s and s+n, the rule that "
         "decides what the property demands of each operation (must verify / must be false / must not be true)",
-        "lean/Driver/C13.lean: JSON protocol, mapping of import routes to model keys (family = key pair identity), toy mutations",
+        "lean/Driver/C13.lean: JSON protocol, mapping of import routes to model keys, the byte-level mutations (flip, trunc, extend, n-s, s+n), "
+        "where key material comes from (case bytes vs model_input.km)",
+        "lean/AskarModel/Crypto/{Ed25519,Ecdsa,Ec,Sha2,Hmac}.lean: executable specifications (tested against the RFC vectors by c13:selftest, "
+        "not verified against a mathematical definition of the curves)",
+        "the child-process plumbing in harness/src/c13.rs (spec_query) and lean/Driver/Main/C13.lean (line protocol with flush)",
     ],
 }
 
